@@ -25,8 +25,10 @@ theorem fileWrite_ok (os : Os) (fd offset : Nat) (buf : Bytes) (p : Path) (hfd :
     ((fileWrite os fd offset buf).1.content p).length ≤ max (os.content p).length (offset + buf.length) ∧
     (∀ q, q ≠ p → (fileWrite os fd offset buf).1.files q = os.files q) := by
   obtain ⟨k, hk, hok, hfiles⟩ := fileWriteLoop_files os fd offset buf 0 p hfd
-  have hfiles' : (fileWrite os fd offset buf).1.files = wrote os.files p offset buf k := hfiles
-  have hok' : (fileWrite os fd offset buf).2 = true → k = buf.length := hok
+  have hfiles' : (fileWrite os fd offset buf).1.files = wrote os.files p offset buf k := by
+    rw [fileWrite_files_eq]; exact hfiles
+  have hok' : (fileWrite os fd offset buf).2 = true → k = buf.length := by
+    rw [fileWrite_snd]; exact hok
   refine ⟨?_, ?_, ?_, ?_, ?_⟩
   · intro h hne
     have hk' := hok' h
